@@ -53,7 +53,7 @@ def daysOf (t : Date) : Int :=
 /-- the date with a given day number, found by search (year by estimate and correction, then month by scan):
     an executable inverse of `daysOf` that shares no formula with the implementation. -/
 def yearOf (z : Int) : Int :=
-  let y0 := 1970 + z / 366          -- never too large by more than a few years
+  let y0 := 1970 + z / 366          -- off by at most ~75 years on the supported range (|z| ≤ 1.27e7); corrected below
   -- correct upward: at most ~ (|z|/366/365 + 2) steps; fuel generous
   let rec up (fuel : Nat) (y : Int) : Int :=
     match fuel with
